@@ -302,7 +302,7 @@ impl From<TypeNodeId> for StateType {
             ),
             Type::Tuple(elems) => StateType(elems.iter().map(|ty| ty.word_size() as u64).sum()),
             Type::Array(_elem_ty) => StateType(1),
-            _ => todo!(),
+            _ => StateType(t.word_size() as u64),
         }
     }
 }
